@@ -44,6 +44,14 @@ CHECKS = {
    technique="deterministic simulation: seeded hash flavours behind the hash seam; oracle = reference partition, one whole input row per class",
    text="Same simulated world as C04: Distinct must return exactly one row per class of the reference partition under every hash flavour, each an unmodified input row (matched through a hidden id column, or by content when all columns are the key).",
    note="Trusted: as C04."),
+ "C01": dict(engine="family", level="exploration", design="§3 C01",
+   technique="deterministic simulation: simulated caller threads under a seeded cooperative scheduler (PCT / random walk) over go/ast-injected loop-level scheduling points; oracle = every member of a storage-sharing family equals its creation-time snapshot",
+   text="Seeded exploration of operation histories over a growing family of frames, groupers and views that share column and index storage, executed by 1..3 simulated clients whose interleaving at loop granularity is decided by the seed. Invariant I1 (every earlier member, and every slice handed to New, is observably what it was at creation) is evaluated after every operation and at sampled scheduler steps inside other clients' operations, which is what exposes a mutate-then-restore of shared storage. Sampling of an unbounded history space, not proof.",
+   note="Trusted: obs/digest through the public accessors; yields at loop heads of a scratch copy (the code under test is otherwise the real qframe); single-client runs are ordinary model-based stateful testing and are counted separately in the evidence."),
+ "C11": dict(engine="family+race", level="exploration", design="§3 C11, §2.3, §2.4",
+   technique="deterministic simulation of concurrent callers (seeded cooperative scheduler over injected yields; oracle: result under the schedule == result alone) + the same seeded programs on free goroutines under the Go race detector",
+   text="Two phases over the same generated world. (1) Deterministic: 2..4 simulated clients, interleaving chosen by PCT/random-walk at loop granularity; every operation's canonical result must equal its result when re-run alone (the sequential specification of an immutable value is stateless, so this is the linearizability check), no member of the family may change, and the clients must terminate within a step bound derived from their sequential cost. (2) Race: the same programs on 2..8 free-running goroutines against an uninstrumented -race build; any report of the race detector, any panic and any result difference is a violation. Phase 2 observes real executions: stated, and justified in DESIGN.md §2.4 (scheduler hand-offs are happens-before edges that would blind the detector).",
+   note="Trusted: the Go race detector (no false positives); the harness shares nothing between goroutines but the qframe values and a start channel. A race that needs a third party the programs never create (user code mutating an eval.Context concurrently) is misuse and out of scope."),
 }
 
 PENDING = {'C01': 'not claimed yet: the engine for this property is still being built (planned as a deterministic-simulation check, see DESIGN.md §3); it will move to checks when it runs', 'C04': 'not claimed yet: the engine for this property is still being built (planned as a deterministic-simulation check, see DESIGN.md §3); it will move to checks when it runs', 'C05': 'not claimed yet: the engine for this property is still being built (planned as a deterministic-simulation check, see DESIGN.md §3); it will move to checks when it runs', 'C11': 'not claimed yet: the engine for this property is still being built (planned as a deterministic-simulation check, see DESIGN.md §3); it will move to checks when it runs', 'C13': 'not claimed yet: the engine for this property is still being built (planned as a deterministic-simulation check, see DESIGN.md §3); it will move to checks when it runs', 'C14': 'not claimed yet: the engine for this property is still being built (planned as a deterministic-simulation check, see DESIGN.md §3); it will move to checks when it runs', 'C15': 'not claimed yet: the engine for this property is still being built (planned as a deterministic-simulation check, see DESIGN.md §3); it will move to checks when it runs', 'C19': 'not claimed yet: the engine for this property is still being built (planned as a deterministic-simulation check, see DESIGN.md §3); it will move to checks when it runs'}
